@@ -38,8 +38,14 @@ type corpus struct {
 		Starts int        `json:"starts"`
 		P      [3]float64 `json:"p"` // cartesian
 	} `json:"points"`
-	Mating []mateCase `json:"mating"`
-	Taper  []struct {
+	Mating  []mateCase `json:"mating"`
+	BoltNut []struct {
+		Thread string     `json:"thread"`
+		Tol    float64    `json:"tol"`
+		Shift  int        `json:"shift"`
+		P      [3]float64 `json:"p"`
+	} `json:"boltnut"`
+	Taper []struct {
 		Thread string  `json:"thread"`
 		Length float64 `json:"length"`
 		Z      float64 `json:"z"`
@@ -766,45 +772,66 @@ func check(c *Ctx, r *Report) error {
 	}
 
 	// ------------------------------------------------------------ 7. obj.Bolt / obj.Nut
+	boltnut := func(stratum string, g tgeo, tol float64, n int, pts []v3.Vec, npts int) {
+		t, err := sdf.ThreadLookup(g.name)
+		if err != nil {
+			return
+		}
+		nhh := t.HexHeight()
+		total := 3*nhh + 6*g.pitch
+		bolt, err1 := obj.Bolt(&obj.BoltParms{Thread: g.name, Style: "hex", Tolerance: tol, TotalLength: total, ShankLength: 0})
+		nut, err2 := obj.Nut(&obj.NutParms{Thread: g.name, Style: "hex", Tolerance: tol})
+		if err1 != nil || err2 != nil {
+			r.Violate("boltnut:"+g.name, fmt.Sprintf("obj.Bolt/obj.Nut fail for %s: %v %v", g.name, err1, err2), g.name)
+			return
+		}
+		shank := 0 + nhh/2
+		threadOffset := total/2 + shank
+		z0 := threadOffset + float64(n)*g.pitch
+		placed := sdf.Transform3D(nut, sdf.Translate3d(v3.Vec{X: 0, Y: 0, Z: z0}))
+		scale := g.r + g.pitch
+		delta := 1e-9 * scale
+		for k := 0; k < npts+len(pts); k++ {
+			var p v3.Vec
+			if k < len(pts) {
+				p = pts[k]
+			} else {
+				rho := g.r + tol - g.h*rng.Uniform(-0.3, 1.0)
+				switch k % 6 {
+				case 0:
+					rho = g.r * rng.Uniform(0, 2.5)
+				case 1: // next to the axis
+					rho = g.r * rng.Uniform(0, 0.05)
+				}
+				p = cyl(rho, rng.Uniform(-math.Pi, math.Pi), z0+rng.Uniform(-0.6, 0.6)*nhh)
+			}
+			a, b := bolt.Evaluate(p), placed.Evaluate(p)
+			key := fmt.Sprintf("boltnut:%s,%x,%d|%s", g.name, tol, n, pkey(p))
+			r.Case(stratum, key, true)
+			if a < -delta && b < -delta {
+				r.Violate(key, fmt.Sprintf("obj.Bolt and obj.Nut for %s (tolerance %v, nut %d pitches from the middle of the thread): the point %v is %v inside the bolt and %v inside the nut", g.name, tol, n, p, -a, -b),
+					map[string]interface{}{"thread": g.name, "tol": tol, "shift": n, "p": []float64{p.X, p.Y, p.Z}})
+				return
+			}
+		}
+	}
+	for _, e := range cp.BoltNut {
+		if t, err := sdf.ThreadLookup(e.Thread); err == nil {
+			boltnut("boltnut/corpus", geo(t), e.Tol, e.Shift, []v3.Vec{{X: e.P[0], Y: e.P[1], Z: e.P[2]}}, 0)
+		}
+	}
 	nb := TierN(c.Tier, 10, len(geos), 24)
 	for _, g := range pick(nb) {
 		for _, tol := range []float64{0, 0.02 * g.pitch, 0.3 * g.pitch} {
-			t, _ := sdf.ThreadLookup(g.name)
-			nhh := t.HexHeight()
-			total := 3*nhh + 6*g.pitch
-			bolt, err1 := obj.Bolt(&obj.BoltParms{Thread: g.name, Style: "hex", Tolerance: tol, TotalLength: total, ShankLength: 0})
-			nut, err2 := obj.Nut(&obj.NutParms{Thread: g.name, Style: "hex", Tolerance: tol})
-			if err1 != nil || err2 != nil {
-				r.Violate("boltnut:"+g.name, fmt.Sprintf("obj.Bolt/obj.Nut fail for %s: %v %v", g.name, err1, err2), g.name)
-				continue
-			}
-			shank := 0 + nhh/2
-			threadOffset := total/2 + shank
 			// whole pitches along the thread (single start: same phase); tapered: not towards the thick end
 			shifts := []int{0, 1, 2}
+			tp := "tapered"
 			if g.taper == 0 {
 				shifts = []int{0, -2, 3}
+				tp = "straight"
 			}
 			for _, n := range shifts {
-				z0 := threadOffset + float64(n)*g.pitch
-				placed := sdf.Transform3D(nut, sdf.Translate3d(v3.Vec{X: 0, Y: 0, Z: z0}))
-				scale := g.r + g.pitch
-				delta := 1e-9 * scale
-				for k := 0; k < TierN(c.Tier, 150, 1500, 500); k++ {
-					rho := g.r + tol - g.h*rng.Uniform(-0.3, 1.0)
-					if k%6 == 0 {
-						rho = g.r * rng.Uniform(0, 2.5)
-					}
-					p := cyl(rho, rng.Uniform(-math.Pi, math.Pi), z0+rng.Uniform(-0.6, 0.6)*nhh)
-					a, b := bolt.Evaluate(p), placed.Evaluate(p)
-					key := fmt.Sprintf("boltnut:%s,%x,%d|%s", g.name, tol, n, pkey(p))
-					r.Case("boltnut", key, true)
-					if a < -delta && b < -delta {
-						r.Violate(key, fmt.Sprintf("obj.Bolt and obj.Nut for %s (tolerance %v, nut %d pitches from the middle of the thread): the point %v is %v inside the bolt and %v inside the nut", g.name, tol, n, p, -a, -b),
-							map[string]interface{}{"thread": g.name, "tol": tol, "shift": n, "p": p})
-						break
-					}
-				}
+				boltnut("boltnut/"+tp, g, tol, n, nil, TierN(c.Tier, 150, 1500, 500))
 			}
 		}
 	}
